@@ -276,6 +276,8 @@ class AnsiString:
                 if settings_to_remove:
                     self.remove_formatting(settings_to_remove, key)
                 if settings_to_apply:
+                    # Apply in the order given by the sequence so that the result renders to the same sequence again
+                    settings_to_apply.sort(key=lambda x: __class__._find_setting_reference(x, settings))
                     self.apply_formatting(settings_to_apply, key)
 
     def simplify(self):
